@@ -162,7 +162,7 @@ func ruleRoleGate(c *Ctx) {
 			}
 			hit := false
 			for _, r := range t.role {
-				if cc.StaticCallee().Name() == r {
+				if baseFuncName(cc.StaticCallee()) == r {
 					hit = true
 				}
 			}
@@ -170,7 +170,7 @@ func ruleRoleGate(c *Ctx) {
 				return
 			}
 			n++
-			key := fmt.Sprintf("role-gate:%s@%s", cc.StaticCallee().Name(), fname(fn))
+			key := fmt.Sprintf("role-gate:%s@%s", baseFuncName(cc.StaticCallee()), fname(fn))
 			modeOK := fieldEqEstablished(ins, "mode", t.mode)
 			tcpOK := !t.needTCP || fieldEqEstablished(ins, "Type", tcp)
 			switch {
@@ -292,7 +292,7 @@ func ruleContentLengthIffBody(c *Ctx) {
 				return false
 			}
 			f, _, ok := fieldLoad(call.Call.Args[0])
-			return ok && f.Name() == "Body"
+			return ok && theProgram.baseFieldName(f) == "Body"
 		}
 		var viol ssa.Instruction
 		res := RunPath(&PathRule[st]{Fn: fn, Init: []st{{}},
@@ -331,11 +331,11 @@ func ruleContentLengthIffBody(c *Ctx) {
 					s.Del = true
 					return []st{s}
 				}
-				if cc.StaticCallee() != nil && (cc.StaticCallee().Name() == "SetInt" || cc.StaticCallee().Name() == "Set") {
+				if cc.StaticCallee() != nil && (baseFuncName(cc.StaticCallee()) == "SetInt" || baseFuncName(cc.StaticCallee()) == "Set") {
 					s.Set = true
 					return []st{s}
 				}
-				if cc.StaticCallee() != nil && cc.StaticCallee().Name() == "Write" && strings.Contains(funcFullName(cc.StaticCallee()), "Header") {
+				if cc.StaticCallee() != nil && baseFuncName(cc.StaticCallee()) == "Write" && strings.Contains(funcFullName(cc.StaticCallee()), "Header") {
 					if s.Body == 2 && !s.Del {
 						viol = ins
 					}
@@ -368,7 +368,7 @@ func ruleChannelIsIndex(c *Ctx) {
 			return
 		}
 		f, base, ok := fieldAddr(st.Addr)
-		if !ok || f.Name() != "Channel" || !typeIs(base.Type(), modRel("av/format/rtp"), "Packet") {
+		if !ok || theProgram.baseFieldName(f) != "Channel" || !typeIs(base.Type(), modRel("av/format/rtp"), "Packet") {
 			return
 		}
 		n++
@@ -575,7 +575,7 @@ func ruleAscExtOrder(c *Ctx) {
 		if cc == nil || cc.StaticCallee() == nil || ins.Block() != start.Block() {
 			return
 		}
-		switch cc.StaticCallee().Name() {
+		switch baseFuncName(cc.StaticCallee()) {
 		case "getSampleRate":
 			if rate == nil {
 				rate = ins
@@ -606,7 +606,7 @@ func ruleSplitVisitsAll(c *Ctx) {
 	// loop header: block with a phi (continueScan) ending in If; body contains the Scan call
 	var scan ssa.Instruction
 	instrs(fn, func(ins ssa.Instruction) {
-		if cc := callCommon(ins); cc != nil && cc.StaticCallee() != nil && cc.StaticCallee().Name() == "Scan" {
+		if cc := callCommon(ins); cc != nil && cc.StaticCallee() != nil && baseFuncName(cc.StaticCallee()) == "Scan" {
 			scan = ins
 		}
 	})
@@ -681,24 +681,33 @@ func rulePartCountEverySeparator(c *Ctx) {
 	c.touched(fname(fn))
 	// the `i == -1` test; on its false edge every path back to the loop head must pass an increment of the counter
 	var test *ssa.BasicBlock
+	foundIdx := 1
 	for _, b := range fn.Blocks {
 		ifi, ok := b.Instrs[len(b.Instrs)-1].(*ssa.If)
 		if !ok {
 			continue
 		}
 		bo, ok := ifi.Cond.(*ssa.BinOp)
-		if !ok || bo.Op != token.EQL {
+		if !ok {
 			continue
 		}
-		if k, ok := constInt(bo.Y); ok && k == -1 {
-			test = b
+		k, ok := constInt(bo.Y)
+		if !ok {
+			continue
+		}
+		// the "separator found" edge of `i == -1`, `i != -1`, `i < 0`, `i >= 0`
+		switch {
+		case bo.Op == token.EQL && k == -1, bo.Op == token.LSS && k == 0:
+			test, foundIdx = b, 1
+		case bo.Op == token.NEQ && k == -1, bo.Op == token.GEQ && k == 0, bo.Op == token.GTR && k == -1:
+			test, foundIdx = b, 0
 		}
 	}
 	if test == nil {
 		c.Undecided("partcount", p.Pos(fn.Pos()), "the `IndexByte == -1` test was not found")
 		return
 	}
-	found := test.Succs[1]
+	found := test.Succs[foundIdx]
 	// the counter: a phi in the loop head with an edge x+1; the +1 must be computed in a block that dominates
 	// the back edge source and is reached unconditionally from `found`
 	okInc := false
@@ -781,7 +790,7 @@ func ruleSaveUpdateCopies(c *Ctx) {
 			return s, true
 		},
 		Transfer: func(s st, ins ssa.Instruction) []st {
-			if cc := callCommon(ins); cc != nil && cc.StaticCallee() != nil && cc.StaticCallee().Name() == "CopyFrom" {
+			if cc := callCommon(ins); cc != nil && cc.StaticCallee() != nil && baseFuncName(cc.StaticCallee()) == "CopyFrom" {
 				s.Copied = true
 				return []st{s}
 			}
@@ -819,7 +828,7 @@ func ruleSniffErrWithData(c *Ctx) {
 			return
 		}
 		f, _, ok := fieldAddr(st.Addr)
-		if !ok || f.Name() != "lastErr" {
+		if !ok || theProgram.baseFieldName(f) != "lastErr" {
 			return
 		}
 		n++
@@ -905,7 +914,7 @@ func ruleParseErrChecked(c *Ctx) {
 			return
 		}
 		f, _, ok := fieldLoad(ld)
-		if !ok || f.Name() != "sdp" {
+		if !ok || theProgram.baseFieldName(f) != "sdp" {
 			return
 		}
 		if ins.Block() == parse.Block() && !dominatesInstr(parse, ins) {
@@ -959,7 +968,7 @@ func ruleRetryOnEvery401(c *Ctx) {
 		if cc == nil || cc.StaticCallee() == nil {
 			return
 		}
-		name := cc.StaticCallee().Name()
+		name := baseFuncName(cc.StaticCallee())
 		if name != "SetDigestAuth" && name != "SetBasicAuth" {
 			return
 		}
@@ -967,7 +976,7 @@ func ruleRetryOnEvery401(c *Ctx) {
 		var bad ssa.Value
 		domConds(ins, func(cond ssa.Value, taken bool) {
 			walkDeps(cond, func(x ssa.Value) bool {
-				if call, ok := x.(*ssa.Call); ok && call.Call.StaticCallee() != nil && call.Call.StaticCallee().Name() == "Get" && len(call.Call.Args) > 0 {
+				if call, ok := x.(*ssa.Call); ok && call.Call.StaticCallee() != nil && baseFuncName(call.Call.StaticCallee()) == "Get" && len(call.Call.Args) > 0 {
 					// Header.Get on the *request* (not the response)
 					root := call.Call.Args[0]
 					dep := false
